@@ -357,8 +357,54 @@ def py_eval(e, sc, vc, trace=None, fnt=None, eager=False):
 
 
 def eager_fails(e, sc, vc):
+    """does the formula fail when EVERY Piecewise branch is evaluated and combined with its context (numpy.select
+    evaluates all branches; sympy moves surrounding operations into the branches)?  Set-valued evaluation."""
+    CAP = 24
+
+    def app(f, *sets):
+        import itertools
+        out = []
+        for combo in itertools.islice(itertools.product(*sets), 400):
+            v = f(*combo)
+            if v not in out:
+                out.append(v)
+        return out[:CAP]
+
+    def ev(e, sc):
+        k = e[0]
+        if k == 'c':
+            return [F(e[1])]
+        if k == 'nan':
+            return []
+        if k == 'v':
+            if e[1] not in sc:
+                raise EvalError('unbound')
+            return [sc[e[1]]]
+        if k == 'ite':
+            ev(e[1], sc)
+            return (ev(e[2], sc) + ev(e[3], sc))[:CAP]
+        if k == 'sum':
+            los, his = ev(e[2], sc), ev(e[3], sc)
+            acc = [F(0)]
+            for lo in los[:1]:
+                for hi in his[:1]:
+                    if lo.denominator != 1 or hi.denominator != 1 or hi - lo > 64:
+                        raise EvalError('type')
+                    for kk in range(int(lo), int(hi) + 1):
+                        acc = app(lambda x, y: x + y, acc, ev(e[4], {**sc, e[1]: F(kk)}))
+            return acc
+        one = lambda sub, scv: py_eval(sub, scv, vc)
+        if k == 'u':
+            return app(lambda x: one(['u', e[1], ['c', str(x), 'r']], sc), ev(e[2], sc))
+        if k == 'b':
+            return app(lambda x, y: one(['b', e[1], ['c', str(x), 'r'], ['c', str(y), 'r']], sc), ev(e[2], sc), ev(e[3], sc))
+        if k == 'idx':
+            return app(lambda x: one(['idx', e[1], ['c', str(x), 'r']], sc), ev(e[2], sc))
+        if k == 'ibc':
+            return app(lambda x, y: one(['ibc', ['c', str(x), 'r'], e[2], ['c', str(y), 'r']], sc), ev(e[1], sc), ev(e[3], sc))
+        raise ValueError(e)
     try:
-        py_eval(e, sc, vc, eager=True)
+        ev(e, sc)
         return False
     except EvalError:
         return True
@@ -380,9 +426,12 @@ def analyse(e, sc, vc):
 
     def inexact_sub(sub):
         # sympy rewrites x / 0.375 into 2.66666666666667*x: a division by a float literal is inexact
-        if any(s[0] == 'b' and s[1] in ('div', 'floordiv') and any(c[0] == 'c' and c[2] == 'f' for c in subterms(s[3]))
-               for s in subterms(sub)):
-            return True
+        for s in subterms(sub):
+            if s[0] == 'b' and s[1] in ('div', 'floordiv') and not fv(s[3]) and not fvv(s[3]):
+                if any(c[0] == 'c' and c[2] == 'f' for c in subterms(s[3])):
+                    return True
+                if any(r == 0 or not is_dyadic(1 / r) for r in vals.get(id(s[3]), [])):
+                    return True
         # float pow is not correctly rounded: (-4.53125)**4 is off by one ulp although the result is representable
         if any(s[0] == 'u' and s[1].startswith('pow:') and abs(int(s[1][4:])) > 2 for s in subterms(sub)):
             return True
